@@ -11,9 +11,36 @@ Recs == JsonDeserialize(IOEnv.TRACE_FILE)
 VARIABLES n, done
 Init == n \in 1..Len(Recs) /\ done = FALSE
 
+\* a primitive whose intended value is given as sign + magnitude (numbers) or raw bytes (strings):
+\* the implementation's bytes must be exactly Enc of the intended tree
+PrimVal(q) ==
+    CASE q.typ \in {TInteger, TEnum, TInterval} -> IntVal(q.neg, q.mag)
+      [] q.typ \in {TLong, TDateTime, TDateTimeExt} -> LongVal(q.neg, q.mag)
+      [] q.typ = TBigInt -> BigVal(q.neg, q.mag)
+      [] q.typ = TBool -> BoolVal(q.neg)            \* neg carries the truth value
+      [] OTHER -> q.mag                             \* text / byte strings: the bytes themselves
+PrimFails(r) ==
+    LET want == Enc([tag |-> r.prim.tag, typ |-> r.prim.typ, val |-> PrimVal(r.prim)]) IN
+    IF r.prim.typ = TBigInt
+    THEN \* KMIP does not mandate a minimal width: same value, length a multiple of 8
+         LET p == Parse(r.bytes) IN
+         IF ~p.ok THEN {"TTLV: " \o p.why}
+         ELSE IF p.tree.tag = r.prim.tag /\ p.tree.typ = TBigInt /\
+                 (LET a == p.tree.val  b == PrimVal(r.prim)
+                      ext == IF r.prim.neg /\ ~IsZero(r.prim.mag) THEN 255 ELSE 0
+                      la == Len(a)  lb == Len(b)
+                      signbit(x) == x[1] >= 128 IN
+                  \* the longer one is the sign extension of the shorter one, and both carry the intended sign
+                  /\ signbit(a) = (ext = 255) /\ signbit(b) = (ext = 255)
+                  /\ IF la >= lb THEN SubSeq(a, la - lb + 1, la) = b /\ \A i \in 1..(la - lb) : a[i] = ext
+                     ELSE SubSeq(b, lb - la + 1, lb) = a /\ \A i \in 1..(lb - la) : b[i] = ext)
+              THEN {} ELSE {"big integer value differs from two's complement of the intended number"}
+    ELSE IF want = r.bytes THEN {} ELSE {"primitive encoding differs from the specification's encoding"}
+
 Fails(r) ==
     LET p == Parse(r.bytes) IN
-    IF ~p.ok THEN {"TTLV: " \o p.why}
+    IF r.kind = "prim" THEN PrimFails(r)
+    ELSE IF ~p.ok THEN {"TTLV: " \o p.why}
     ELSE IF r.kind = "response"
          THEN EnvelopeFails(p.tree)
               \cup (IF r.reqver >= 0 /\ VersionOf(p.tree) # r.reqver THEN {"response version differs from the request version"} ELSE {})
